@@ -94,6 +94,8 @@ pub fn scale_programs(legacy: bool) -> Vec<P> {
         many(24, &|i| if i % 2 == 0 { P::Burst(s0(), s0()) } else { P::Join(s0(), s0()) }),
         (0..24).fold(req(), |acc, _| P::then(acc, req())),
         (0..24).fold(req(), |acc, i| P::and(acc, if i % 6 == 0 { P::Stream(s0()) } else { req() })),
+        // more than 1024 effects and a few dozen events out of ONE call (queues and batches have sizes too)
+        many(1100, &|i| if i % 110 == 7 { P::Burst(s0(), s0()) } else if i % 3 == 0 { req() } else { P::Notify(s0()) }),
     ];
     if !legacy {
         out.push((0..12).fold(P::All(vec![req(), req()]), |acc, i| if i % 3 == 0 { P::MapEvent(Box::new(acc)) } else if i % 3 == 1 { P::All(vec![acc, req()]) } else { P::FromInto(Box::new(acc)) }));
@@ -358,6 +360,7 @@ pub fn suites(id: &str, tier: Tier) -> Vec<Suite> {
     v.extend(match id {
         "C01" => scale_suites(&[HostKind::CoreCmd, HostKind::Bincode]),
         "C02" => scale_suites(&[HostKind::Direct, HostKind::Json]),
+        "C03" => scale_suites(&[HostKind::CoreCmd, HostKind::CoreLegacy]),
         "C05" => scale_suites(&[HostKind::StreamPoll, HostKind::CoreLegacy, HostKind::CoreCmd]),
         "C07" => scale_suites(&[HostKind::Direct]),
         _ => vec![],
